@@ -2,8 +2,10 @@ package layout
 
 import (
 	"fmt"
+	"os"
 	"sort"
 	"strings"
+	"time"
 
 	"astverif/lin"
 	"astverif/load"
@@ -32,6 +34,20 @@ type RTPair struct {
 	Consumed func(src *Source) lin.Form
 	// MinSources: floor on the number of writer outcomes composed.
 	MinSources int
+	// WriterPreds / WriterEq restrict the writer outcomes explored to one valuation of boolean cells / integer
+	// cells (used where a structure embeds another one that has its own pair).
+	WriterPreds map[string]bool
+	WriterEq    map[string]int64
+	// SkipParamConds: writer outcomes under these parameter conditions are outside the documented input domain
+	// (reason in SkipWhy); they are not composed.
+	SkipParamConds map[string]bool
+	SkipWhy        string
+	// ElsewherePrefix: fields below this path that this pair never transmits are decided by another pair (named in
+	// ElsewhereWhy).
+	ElsewherePrefix string
+	ElsewhereWhy    string
+	// Start: byte offset at which the parser starts reading (bytes before it are consumed by its caller).
+	Start int64
 	// Guided: compose by interpreting the parser once per writer outcome (oracle.go) instead of refuting a flat
 	// parser summary against it (compose.go).
 	Guided bool
@@ -51,12 +67,36 @@ func (c *Checker) A3(r *report.Report, pairs []RTPair) {
 }
 
 func (c *Checker) a3(r *report.Report, p RTPair) {
+	if os.Getenv("ASTVERIF_PROGRESS") != "" {
+		t0 := time.Now()
+		fmt.Fprintf(os.Stderr, "A3 %s start\n", p.Name)
+		defer func() { fmt.Fprintf(os.Stderr, "A3 %s done in %s\n", p.Name, time.Since(t0)) }()
+	}
 	if p.Writer == nil || p.Parser == nil {
 		r.Unknown("A3", p.Name+"/anchors", "", "writer or parser function not found")
 		return
 	}
 	pos := c.P.Pos(p.Parser.Pos())
-	ws := c.IP.Summarize(p.Writer)
+	var ws *pathint.Summary
+	if len(p.WriterPreds) > 0 || len(p.WriterEq) > 0 {
+		ws = &pathint.Summary{Fn: p.Writer}
+		sum := c.IP.Explore(p.Writer, func(st *pathint.State) {
+			for k, v := range p.WriterPreds {
+				st.Preds[k] = v
+			}
+			for k, v := range p.WriterEq {
+				st.Facts = append(st.Facts, lin.Fact{F: lin.Sym(k).AddC(-v)}, lin.Fact{F: lin.Sym(k).Scale(-1).AddC(v)})
+			}
+		}, func(st *pathint.State, res []pathint.Val) {
+			ws.Outcomes = append(ws.Outcomes, *st.Outcome(p.Writer, res))
+		})
+		ws.Truncated = sum.Truncated
+	} else {
+		ws = c.IP.Summarize(p.Writer)
+	}
+	if os.Getenv("ASTVERIF_PROGRESS") != "" {
+		fmt.Fprintf(os.Stderr, "A3 %s writer outcomes=%d\n", p.Name, len(ws.Outcomes))
+	}
 	ps := &pathint.Summary{}
 	if !p.Guided {
 		ps = c.IP.Summarize(p.Parser)
@@ -78,8 +118,24 @@ func (c *Checker) a3(r *report.Report, p RTPair) {
 		if readsThroughNil(o) {
 			continue
 		}
+		if p.RootPtr && o.ParamConds["nil:"+p.Root] {
+			continue // nothing is written for a nil structure
+		}
+		skip := false
+		for k, v := range p.SkipParamConds {
+			if got, ok := o.ParamConds[k]; ok && got == v {
+				skip = true
+			}
+		}
+		if skip {
+			r.Assume(p.Name + ": " + p.SkipWhy)
+			continue
+		}
 		src := c.SourceFromOutcome(p.Writer, o, p.WriterObj, fmt.Sprintf("%s when{%s}", load.FuncName(p.Writer), guardOf(o)))
 		nsrc++
+		for _, a := range src.Computed {
+			assumed[a] = true
+		}
 		opts := ComposeOpts{Computed: map[string]*lin.Form{}, Why: map[string]string{}}
 		for path, fn := range p.Computed {
 			opts.Computed[path] = fn(src)
@@ -96,6 +152,7 @@ func (c *Checker) a3(r *report.Report, p RTPair) {
 		}
 		var comp *Composition
 		if p.Guided {
+			opts.Start = p.Start
 			comp = c.Guided(src, p.Parser, p.It, p.Root, p.RootPtr, opts)
 			ncomp++
 		} else {
@@ -156,6 +213,8 @@ func (c *Checker) a3(r *report.Report, p RTPair) {
 		case a.ok == 0:
 			if why, ok := p.NotWritten[path]; ok {
 				r.OK("A3", k, pos, "never transmitted by the writer (declared asymmetry: "+why+"); the parser leaves it at zero on every writer outcome")
+			} else if p.ElsewherePrefix != "" && strings.HasPrefix(path, p.ElsewherePrefix) {
+				r.OK("A3", k, pos, "not transmitted on the valuation fixed for this pair; "+p.ElsewhereWhy)
 			} else if _, isComputed := p.Computed[path]; isComputed {
 				r.OK("A3", k, pos, "exempt on every writer outcome: "+p.Why[path])
 			} else {
@@ -168,6 +227,9 @@ func (c *Checker) a3(r *report.Report, p RTPair) {
 				r.OK("A3", k, pos, fmt.Sprintf("parse∘write is the identity on this field on %d valuations (not transmitted on %d)", a.ok, a.skip))
 			}
 		}
+	}
+	for a := range c.IP.BitAssumptions {
+		assumed[a] = true
 	}
 	var as []string
 	for a := range assumed {
@@ -190,11 +252,17 @@ func clip(s string, n int) string {
 
 // A5 reports the bit operations whose result is constant although their operand is not.
 func (c *Checker) A5(r *report.Report, funcs []*ssa.Function) {
+	// a separate interpreter with fully symbolic inputs and per-function summaries (callees are not inlined: each
+	// function body is judged on its own)
+	c5 := NewBits(c.P)
+	c5.IP.InlineCalls = false
+	c5.IP.MaxOut = 64
 	for _, f := range funcs {
 		if f != nil {
-			c.IP.Summarize(f)
+			c5.IP.Summarize(f)
 		}
 	}
+	c = c5
 	var ps []string
 	for p, op := range c.IP.DeadOps {
 		ps = append(ps, c.P.Pos(p)+"\x00"+op)
